@@ -61,7 +61,7 @@ NSYM = len(SECTS) - 1        # the last kind is used in fixed documents only
 
 ENVS = [('equation', None), ('displaymath', None), ('eqnarray', None), ('eqnarray*', None),
         ('align', 'amsmath'), ('align*', 'amsmath'), ('gather', 'amsmath'),
-        ('flalign', 'amsmath'), ('equation*', 'amsmath'), ('multiline', 'amsmath'),
+        ('flalign', 'amsmath'), ('equation*', 'amsmath'), ('multiline', 'amsmath'), ('multline', 'amsmath'), ('multline*', 'amsmath'),
         ('alignat', 'amsmath'), ('BRACKET', None), ('DOLLAR', None)]
 SHAPES = [[1], [2], [3], [1, 1], [2, 2], [2, 1], [1, 2], [2, 2, 2], [3, 3], [1, 1, 1]]
 
